@@ -89,7 +89,14 @@ class Env:
         return "a%d" % a
 
     def is_sizer(self, ms, j):
-        return any(m["f"] == "ext" and m["c"] == j for m in ms)
+        return any(m["f"] in ("ext", "limx") and m["c"] == j for m in ms)
+
+    def mname(self, i, j):
+        """name of member j of struct i (overridable per struct: member_names)"""
+        table = getattr(self, "member_names", None)
+        if table and i in table:
+            return table[i][j - 1]
+        return self.fname(j)
 
     # -- prophy text
     def render_def(self, i):
@@ -122,6 +129,8 @@ class Env:
                 lines.append("%s %s<...>;" % (tn, fn))
             elif f == "ext":
                 lines.append("%s %s<@%s>;" % (tn, fn, self.fname(m["c"])))
+            elif f == "limx":
+                raise ValueError("externally counted limited array is not expressible in prophy text")
             else:
                 raise ValueError(f)
         return "struct %s\n{\n%s};\n" % (n, "".join("    %s\n" % x for x in lines))
@@ -189,7 +198,7 @@ def walk_to_value(env, t, walk):
             elif f in ("dyn", "lim", "greedy"):
                 n = nxt("len")["n"]
                 out.append([val(m["t"]) for _ in range(n)])
-            elif f == "ext":
+            elif f in ("ext", "limx"):
                 out.append([val(m["t"]) for _ in range(lens[m["c"]])])
         return ("struct", out)
 
@@ -229,7 +238,7 @@ def value_to_walk(env, t, value):
                     ev("opt", 0 if y is None else 1)
                     if y is not None:
                         val(m["t"], y)
-                elif f in ("fixed", "ext"):
+                elif f in ("fixed", "ext", "limx"):
                     for e in y:
                         val(m["t"], e)
                 else:
